@@ -16,13 +16,17 @@ static const char *KN0[] = {"", "Alpha", "Beta", "alpha", "beta"};
 static const char *KN1[] = {"", "C178039", "C290156", "c178039", "c290156"};
 #define KN (profile ? KN1 : KN0)
 static int profile;
-static const int64_t INTVAL = -12345;
+/* the integer stored through putint / read through getint changes from segment to segment and includes the extremes of int64 */
+static const int64_t IVALS[4] = {-12345, INT64_MIN, INT64_MAX, -1000000000000000000LL};
+static int64_t INTVAL = -12345;
+static char intstr[32] = "-12345";
 /* string values; profile 1 uses bytes that need encoding in the save file */
 static const char *valstr(int v) {
     static const char *P0[] = {"", "v1", "v two", "-12345", ""};
     static const char *P1[] = {"", " lead and trail ", "a%3D=b&c\n\x80\xfe\t#x", "-12345", "%"};
     static const char *P2[] = {"", "=", "line1\nline2\r\n", "-12345", "# not a comment"};
     if (v < 1 || v > 4) return "";
+    if (v == 3) return intstr;
     return profile == 1 ? P1[v] : profile == 2 ? P2[v] : P0[v];
 }
 static int kid(const char *s) { if (!s) return 0; for (int i = 1; i <= 4; i++) if (!strcmp(s, KN[i])) return i; return -1; }
@@ -82,7 +86,7 @@ int main(int argc, char **argv) {
                 T = NULL;
             }
             if (!got) break;
-            vh_seg++; vh_step = 0;
+            vh_seg++; vh_step = 0; INTVAL = IVALS[vh_seg % 4]; snprintf(intstr, sizeof intstr, "%" PRId64, INTVAL);
             mark = vh_ledger_mark();
             if (inj_at || inj_from) {
                 /* constructor under allocation failure: NULL and nothing left allocated, or a working object */
